@@ -209,6 +209,16 @@ fn gen_comment_file(lang: &str, rng: &mut Rng, eol: &str) -> GenFile {
                 g.construct("ignore-marked-comment");
                 last_was_comment = false;
             }
+            7 if lang == "python" => {
+                let st = g.n;
+                g.raw("def f():");
+                g.raw(eol);
+                g.raw("    \"\"\"alpha wrold window\"\"\"");
+                g.segs.push(Seg { role: Role::NonProse, what: "docstring", start: st, end: g.n });
+                g.raw(eol);
+                g.construct("docstring");
+                last_was_comment = false;
+            }
             _ => {
                 if !sx.stmt.is_empty() || is_nix {
                     stmt(&mut g, rng, &mut n_stmt);
@@ -235,7 +245,7 @@ fn gen_markdown(rng: &mut Rng, eol: &str, title_ignored: bool, git: bool) -> Gen
         let was_list = last_was_list;
         last_was_list = false;
         let _ = was_list;
-        match rng.below(14) {
+        match rng.below(21) {
             0 => {
                 if git {
                     // `#` starts the ignored part of a commit message: use a setext heading
@@ -377,6 +387,68 @@ fn gen_markdown(rng: &mut Rng, eol: &str, title_ignored: bool, git: bool) -> Gen
                 g.seg(Role::NonProse, "indented-code", &GenFile::junk(rng, "", (1, 3)));
                 g.construct("indented-code");
             }
+            14 => {
+                // nested list
+                g.raw("- ");
+                g.prose(rng, "list-item", 1, 3, (0, 1));
+                g.raw(eol);
+                g.raw("  - ");
+                g.prose(rng, "nested-list-item", 1, 3, (1, 3));
+                g.raw(eol);
+                g.raw("    1. ");
+                g.prose(rng, "nested-list-item", 1, 3, (0, 1));
+                g.construct("nested-list");
+                last_was_list = true;
+            }
+            15 => {
+                g.prose(rng, "setext-heading", 1, 4, (0, 1));
+                g.raw(eol);
+                g.raw("-----");
+                g.construct("setext-heading");
+            }
+            16 => {
+                g.prose(rng, "paragraph", 1, 3, (0, 1));
+                g.raw(" ![");
+                g.seg(Role::Optional, "image-alt", "alpha wrold");
+                g.raw("](");
+                g.seg(Role::Url, "image-destination", "http://zxqv.example/qwrtz.png");
+                g.raw(") <");
+                g.seg(Role::Url, "autolink", "http://zxqv.example/teh");
+                g.raw("> ");
+                g.prose(rng, "paragraph", 1, 3, (0, 1));
+                g.construct("image-and-autolink");
+            }
+            17 if !git => {
+                g.raw("- [ ] ");
+                g.prose(rng, "task-item", 1, 4, (1, 3));
+                g.raw(eol);
+                g.raw("- [x] ");
+                g.prose(rng, "task-item", 1, 4, (0, 1));
+                g.construct("task-list");
+                last_was_list = true;
+            }
+            18 => {
+                g.prose(rng, "paragraph", 1, 3, (0, 1));
+                g.raw(" _");
+                g.prose(rng, "emphasis", 1, 2, (0, 1));
+                g.raw("_ ");
+                g.seg(Role::Optional, "escape", "\\*");
+                g.raw(" ");
+                g.seg(Role::Optional, "entity", "&amp;");
+                g.raw(" ");
+                g.prose(rng, "paragraph", 1, 3, (1, 3));
+                g.construct("escapes-and-entities");
+            }
+            19 => {
+                g.seg(Role::NonProse, "html-block-tag", "<div class=\"zxqv\">");
+                g.raw(eol);
+                g.raw(eol);
+                g.prose(rng, "paragraph-inside-html-block", 2, 4, (0, 1));
+                g.raw(eol);
+                g.raw(eol);
+                g.seg(Role::NonProse, "html-block-tag", "</div>");
+                g.construct("html-block");
+            }
             _ => {
                 // multi-byte text right before prose
                 g.seg(Role::Optional, "multibyte-lead", *rng.pick(&["\u{1F600}", "\u{65E5}\u{672C}", "\u{00C9}t\u{00E9}", "\u{1D400}"]));
@@ -409,7 +481,7 @@ fn gen_html(rng: &mut Rng, eol: &str) -> GenFile {
     }
     let blocks = rng.range(2, 6);
     for _ in 0..blocks {
-        match rng.below(6) {
+        match rng.below(9) {
             0 => {
                 g.seg(Role::NonProse, "tag", "<p class=\"zxqv h\u{00E9}llo\" title=\"wrold teh\">");
                 g.prose(rng, "text-node", 2, 6, (1, 3));
@@ -445,6 +517,34 @@ fn gen_html(rng: &mut Rng, eol: &str) -> GenFile {
                 g.seg(Role::NonProse, "tag", "</i>");
                 g.seg(Role::NonProse, "tag", "</div>");
                 g.construct("nested-inline");
+            }
+            5 => {
+                g.seg(Role::NonProse, "tag", "<p>");
+                g.prose(rng, "text-node", 1, 3, (0, 1));
+                g.raw(" ");
+                g.seg(Role::NonProse, "tag", "<code>");
+                g.seg(Role::NonProse, "code-element", "zxqv w\u{00F6}rld teh");
+                g.seg(Role::NonProse, "tag", "</code>");
+                g.raw(" ");
+                g.prose(rng, "text-node", 1, 3, (0, 1));
+                g.seg(Role::NonProse, "tag", "</p>");
+                g.construct("code-element");
+            }
+            6 => {
+                g.seg(Role::NonProse, "tag", "<pre>");
+                g.seg(Role::NonProse, "pre-element", "zxqv = w\u{00F6}rld(teh)");
+                g.seg(Role::NonProse, "tag", "</pre>");
+                g.construct("pre-element");
+            }
+            7 => {
+                g.seg(Role::NonProse, "tag", "<p>");
+                g.prose(rng, "text-node", 1, 3, (0, 1));
+                g.raw(" ");
+                g.seg(Role::Optional, "entity", "&amp;");
+                g.raw(" ");
+                g.prose(rng, "text-node", 1, 3, (1, 3));
+                g.seg(Role::NonProse, "tag", "</p>");
+                g.construct("entity");
             }
             _ => {
                 g.seg(Role::Optional, "html-comment", "<!-- zxqv wrold -->");
